@@ -280,10 +280,14 @@ func (t *trzszTransfer) addReceivedData(buf []byte, tunnel bool) {
 }
 
 func (t *trzszTransfer) stopTransferringFiles(stopAndDelete bool) {
+	// publish the delete flag first: the other stages poll both flags, and one that saw `stopped` without it
+	// would report a plain stop, so that the peer keeps the partial files it was asked to delete
+	if stopAndDelete && !t.stopped.Load() {
+		t.stopAndDelete.Store(true)
+	}
 	if !t.stopped.CompareAndSwap(false, true) {
 		return
 	}
-	t.stopAndDelete.Store(stopAndDelete)
 	t.buffer.stopBuffer()
 
 	if !t.tunnelConnected {
